@@ -75,3 +75,34 @@ Proof.
     unfold wfd. simpl. lia.
   - vm_compute. split; reflexivity.
 Qed.
+
+(* ------------------------------------------------------------------------------------------------
+   Tie 2 (translator, every run): the decision trees of requestVote and persistVote are REGENERATED from
+   raft.go by go/gotables/trees.go into Model/GenTrees.v (conditions: comparisons and connectives are
+   structure, every other sub-expression an atom named by its source text; effects in source order; the
+   statements after an `if` continue both branches).  Under the valuation of the atoms read off a model
+   state (Proofs/GenTreesSpec.v rv_val / pv_val: each source atom and what the model says it is worth),
+   the regenerated code decides exactly what Model/Node.v decides - for ALL states, failure oracles and
+   requests.  A change of a guard, of the order of the guards, of an effect or its position in raft.go
+   changes the regenerated tree and these theorems stop checking. *)
+From RaftModel Require Import GenTrees Trees.
+From RaftProofs Require Import GenTreesSpec GenTreesProofs.
+
+(* requestVote: grants exactly when the model grants, answers the model's term, and steps down / persists
+   the term / persists the vote / records the contact exactly when the model does, in the model's order;
+   no atom of the source is valued by default (covers) *)
+Theorem C06_regenerated_requestVote_is_the_model : request_vote_tree_agrees.
+Proof. exact request_vote_tree_agrees_holds. Qed.
+Print Assumptions C06_regenerated_requestVote_is_the_model.
+
+(* whatever the atoms are worth (every path of the source): resp.Granted = true is assigned only after
+   persistVote returned nil on that path, or where the recorded vote of this term names this candidate *)
+Theorem C06_regenerated_requestVote_grants_only_after_the_durable_record : vote_granted_only_after_durable_record.
+Proof. exact vote_granted_only_after_durable_record_holds. Qed.
+Print Assumptions C06_regenerated_requestVote_grants_only_after_the_durable_record.
+
+(* persistVote: the candidate is written first, the term second and only if the first write succeeded;
+   nil exactly when both succeeded - the same durable operations in the same order as the model *)
+Theorem C06_regenerated_persistVote_is_the_model : persist_vote_tree_agrees.
+Proof. exact persist_vote_tree_agrees_holds. Qed.
+Print Assumptions C06_regenerated_persistVote_is_the_model.
